@@ -1,5 +1,5 @@
 use crate::sync::{Condvar, Mutex};
-use crate::tree_store::TransactionalMemory;
+use crate::tree_store::{BtreeHeader, TransactionalMemory};
 use crate::{Key, Result, Savepoint, TypeName, Value};
 use alloc::collections::BTreeSet;
 use alloc::collections::btree_map::BTreeMap;
@@ -279,19 +279,23 @@ impl TransactionTracker {
         state.persistent_savepoints.insert(id);
     }
 
+    // Returns the registered id together with the data root of that same transaction. The
+    // caller must read from this root: registering one transaction and then reading the root of
+    // a later one would leave the pages of the later root unprotected, since a non-durable
+    // commit reclaims pages on behalf of the registered ids only
     pub(crate) fn register_read_transaction(
         &self,
         mem: &TransactionalMemory,
-    ) -> Result<TransactionId> {
+    ) -> Result<(TransactionId, Option<BtreeHeader>)> {
         let mut state = self.state.lock()?;
-        let id = mem.get_last_committed_transaction_id()?;
+        let (id, root) = mem.get_last_committed_transaction()?;
         state
             .live_read_transactions
             .entry(id)
             .and_modify(|x| *x += 1)
             .or_insert(1);
 
-        Ok(id)
+        Ok((id, root))
     }
 
     pub(crate) fn deallocate_read_transaction(&self, id: TransactionId) {
